@@ -949,3 +949,12 @@ S("T34", "C19", "C19-r8a", "R-C19-PSEUDOAVG", "PseudoAverage (randomness_tests/l
 S("T35", "C19", "C19-r8b", "R-C19-BIAS", "In Bias (randomness_tests/lattice_suite.py) the accumulation 't += v' was de-indented out ")
 S("T36", "C20", "C20-r8a", "R-C20-CONST", "JavaRandom.RandomBits: the seed scrambling (seed ^ a) & mask was rewritten as (seed % mask")
 S("T37", "C20", "C20-r8b", "R-C20-PURE", "XorShiftStar.RandomBits: the 'if seed: x = seed % 2**64 else: urandom' seeding was restruc")
+
+
+# ---------------------------------------------------------------------------------- Universal's L by n (finding 10, fixed d1508ed)
+_UL = "  block_size = max(size for (size, bound) in min_n.items() if bound <= n)"
+F("U01", "C12", NS, _UL, "  block_size = min(size for (size, bound) in min_n.items() if bound <= n)", "R-C12-LADDER", "the defect itself: always L = 6")
+F("U02", "C12", NS, _UL, "  block_size = max(size for (size, bound) in min_n.items() if bound < n)", "R-C12-LADDER", "n equal to a bound gets the row below")
+F("U03", "C12", NS, "  q = 10 * 2**block_size\n  return UniversalImpl", "  q = 10 * 2**(block_size - 1)\n  return UniversalImpl", "R-C12-LADDER", "Q = 10 * 2^(L-1)")
+T("U04", "C12", NS, _UL, "  block_size = max(size for size in min_n if n >= min_n[size])", "the same selection over the keys")
+T("U05", "C12", NS, _UL, "  admissible = [size for (size, bound) in min_n.items() if not bound > n]\n  block_size = max(admissible)", "selection through a temporary list")
